@@ -45,6 +45,17 @@ ASSUMPTIONS = [
     "(largest |coordinate| about 8e7, spacing of doubles 1.5e-8, still below the library's TOL = 1e-7 used for vertex "
     "merging and fix_points); static points remain bit-identical, the sweep tolerance 1e-11 * largest |coordinate| "
     "scales with it",
+    "start positions of sketch interior points: jittered, all placeholders at one spot (the usage of "
+    "examples/shape/custom.py and the cyclone example; cells are zero-sized at the start), or one point exactly on a "
+    "neighbour; meshes only jittered (coincident mesh points are merged by the library, a different topology)",
+    "fixed by position means every grid point within the library's TOL = 1e-7 of the given place (so placeholders "
+    "sharing the spot are held too); a case with a point between 0.9 and 1.1 TOL from a given place is not judged; the "
+    "regular lattice is asserted only when every held interior point sits on the lattice",
+    "second stage (about 1/3 of non-regular cases): after the first smooth() more points are fixed at the place they "
+    "have then (by index or by position read from sketch.positions / mesh.vertices) and n2 more sweeps are run on the "
+    "same smoother; they must stay bit-identical to that place, and sweep / fix-point oracles apply to the last stage",
+    "work bound: every smooth() runs under call-count fuel 4 x (sweeps x (valence + 3) per interior point + copy-back) "
+    "(unchanged library: <= 0.15 of it); running out is labelled inconclusive, never a verdict",
     "mesh histories: the n sweeps are spread over 1-3 smooth() calls of one smoother with mesh.backport() or nothing in "
     "between; judged on mesh.vertices after the last call exactly as a single smooth(n)",
     "regular lattice: boundary (and fixed points) on an affine image of the integer lattice, so the integer lattice is "
